@@ -533,6 +533,17 @@ def c09_cases(tier, seed):
                     if trk[k]:
                         steps += [op("mul", [90 + k, h], 30 + k), backward(30 + k)]
                 cases.append(steps)
+    # a user operation WITHOUT a derivative whose forward closure is written with library operations (x0*x0 + x1):
+    # its result is tracked iff an operand is, and gradients flow through the graph the closure recorded
+    for d in ([1], [3], [2, 2]):
+        n = prod(d)
+        for m in range(0, 4):
+            trk = [bool(m & 1), bool(m & 2)]
+            steps = [RESET, leaf(1, d, [PRIMES[k] for k in range(n)], trk=trk[0]), leaf(2, d, [PRIMES[6 + k] for k in range(n)], trk=trk[1]),
+                     op("clib", [1, 2], 10), op("mul", [10, 2], 11), backward(11, seed_tensor(d))]
+            steps += grads_of([1, 2, 10])
+            steps += [backward(10), op("clib", [10, 1], 12), backward(12)]
+            cases.append(steps)
     # untracked intermediate: nothing flows below it
     for variant in range(8):
         steps = [RESET, leaf(1, [3], [1, 2, 3], trk=True), leaf(2, [3], [2, -1, 1], trk=True),
